@@ -110,6 +110,7 @@ func VerifyFunc(prog *Program, fi *FuncInfo, tier string) (res *UnitResult) {
 		u.finish(res)
 	}()
 	fi.loops = collectLoops(fi.Decl)
+	closureLits = collectClosureLits(fi.Pkg.TypesInfo, fi.Decl.Body)
 	u.atAsserts = map[*ast.CallExpr][]*Clause{}
 	if u.con != nil {
 		for _, c := range u.con.Asserts {
